@@ -289,11 +289,14 @@ Section Model.
                   end
     end.
 
+  (** with five populations [_split_phi] silently does nothing and the run fails later (IndexError in the integrator):
+      modelled as a refusal *)
   Definition do_split (parent c0 c1 : nat) (s : st) : st :=
     let ids := s_ids s in
     match index_of parent ids with
     | None => fail 11 s
     | Some i =>
+      if Nat.leb 5 (length ids) then fail 24 s else
       let new_ids := firstn i ids ++ [c0] ++ skipn (S i) ids ++ [c1] in
       set_ids new_ids (emits (split_calls (length ids) i new_ids) s)
     end.
